@@ -37,6 +37,7 @@ func call(sig string, in any, f func()) bool {
 func main() {
 	ev.GuardFor("C14")
 	r := ev.Start("C14")
+	defer r.FinishOnPanic()
 	e = &enum.E{R: r}
 	maxLen := ev.Pick(r, 5, 7)
 	var all [][]int
